@@ -322,6 +322,11 @@ func importWorker(importWork chan importJob) {
 				if len(viewData) == 0 {
 					return fmt.Errorf("no data to import for view: %s", viewName)
 				}
+				// this goroutine has no recover: a one-byte payload must not
+				// get to the slice expression below
+				if len(viewData) < 2 {
+					return fmt.Errorf("data too short to be a roaring bitmap for view: %s", viewName)
+				}
 				fileMagic := uint32(binary.LittleEndian.Uint16(viewData[0:2]))
 				if fileMagic == roaring.MagicNumber { // if pilosa roaring format
 					if err := j.field.importRoaring(j.ctx, viewData, j.shard, viewName, j.req.Clear); err != nil {
